@@ -255,14 +255,97 @@ def scn_faults(ctx):
     return True
 
 
+class Refused(RuntimeError):
+    pass
+
+
+def scn_refused(ctx):
+    """The executor below refuses a submission - its submit() raises, as any executor's does once its
+    owner has shut it down.  For layers that hand work over from their own worker thread (retry,
+    throttle) that exception arrives inside the library's thread: it belongs to that one future, the
+    thread survives and later submissions are served."""
+    from more_executors import Executors
+    from vf.harness.entries import finish
+
+    p = ctx.params
+    layer = p["layer"]
+    ev = ctx.ev
+    me = ManualExecutor(ev)
+    k = ctx.choice(p.get("calls", 3), "refuse-call")  # which call of delegate.submit is refused
+    cnt = [0]
+    refusals = []
+    orig = me.submit
+
+    def submit_hook(fn, *a, **kw):
+        n = cnt[0]
+        cnt[0] += 1
+        if n == k:
+            e = Refused("cannot schedule new futures after shutdown")
+            refusals.append(e)
+            ev.add("delegate_refuses", call=n)
+            raise e
+        return orig(fn, *a, **kw)
+
+    me.submit = submit_hook
+    if layer == "retry":
+        ex = Executors.with_retry(me, max_attempts=2, sleep=0.5)
+    elif layer == "throttle":
+        ex = Executors.with_throttle(me, 1)
+    else:
+        ex = Executors.with_throttle(Executors.with_retry(me, max_attempts=2, sleep=0.5), 2)
+    stop = [False]
+
+    def worker():
+        # plays the delegate's workers: the first attempt of the first callable fails, the rest succeed
+        first = [True]
+        while not stop[0]:
+            pend = [d for d in me.submitted if not d.done()]
+            if not pend:
+                me.wake.wait(1.0)
+                me.wake.clear()
+                continue
+            d = pend[0]
+            sched.point()
+            if first[0] and layer != "throttle":
+                first[0] = False
+                finish(d, "error", exc=Boom("first attempt fails"))
+            else:
+                me.run(d)
+
+    w = spawn("worker", worker)
+    futs = [ex.submit(lambda i=i: ("v", i)) for i in range(2)]
+    for f in futs:
+        wait_done(f, sched.now() + 50)
+    outs = [outcome(f) for f in futs]
+    for i, o in enumerate(outs):
+        ctx.check("future-finishes", o[0] != "pending", "submission %d is pending for ever after the delegate refused a submission (call %d)" % (i, k))
+    hit = []
+    if refusals:
+        ctx.reach("delegate-refused")
+        hit = [o for o in outs if o[0] == "error" and o[1] is refusals[0]]
+        ctx.check("refusal-belongs-to-one-future", len(hit) <= 1, "the delegate's exception ended %d futures" % len(hit))
+    # a clean probe: the executor still serves submissions
+    probe = ex.submit(lambda: "probe")
+    wait_done(probe, sched.now() + 50)
+    po = outcome(probe)
+    own = bool(refusals) and po[0] == "error" and po[1] is refusals[0] and not hit  # the refused call was the probe's own
+    ctx.check("probe-completes", po == ("value", "probe") or own, "after the refusal: probe outcome %r" % (po,))
+    stop[0] = True
+    me.wake.set()
+    w.join(BIG)
+    ex.shutdown(wait=True)
+    return True
+
+
 SINGLES = [["map"], ["flat_map"], ["retry"], ["poll"], ["throttle"], ["timeout"]]
 PAIRS = [["retry", "map"], ["map", "retry"], ["poll", "retry"], ["retry", "poll"], ["throttle", "retry"], ["retry", "throttle"],
          ["map", "poll"], ["flat_map", "retry"], ["timeout", "retry"], ["throttle", "map"]]
 ASSUMPTIONS = ["fault = the k-th call (k<2) of a user-supplied function raises Injected; sites: submitted callable, map fn, error fn, flat_map fn, poll fn, cancel fn, should_retry, sleep_time, throttle count callable (after construction), done-callback",
-               "custom retry policy retries once on Boom with sleep 0.5"]
+               "custom retry policy retries once on Boom with sleep 0.5",
+               "refused: the executor below raises from submit() on its k-th call (k<3), as a shut-down executor does; retry and throttle layers call it from their own worker thread"]
 BOUNDS_TEXT = {"quick": "6 single layers (1-2 faults) + 10 two-layer stacks (1 fault), optional concurrent cancel; P<=1 / P=0",
                "thorough": "2 faults everywhere, P<=2 / P<=1"}
-MUST_REACH = {"*": ["fault-injected", "fault-attributed", "unaffected-checked"]}
+MUST_REACH = {"*": ["fault-injected", "fault-attributed", "unaffected-checked", "delegate-refused"]}
 BUDGET = {"quick": 150.0, "thorough": 600.0}
 
 
@@ -279,4 +362,7 @@ def plan(tier, seed):
     if not q:
         items.append(dict(scenario="faults", params=dict(layers=["retry"], nfaults=0, cancel=2, single=True, points_in_user_code=True), bounds=dict(P=2)))
     items.append(dict(scenario="faults", params=dict(layers=["poll"], nfaults=1, cancel=2, single=True), bounds=dict(P=1 if q else 2)))
+    for ly in ("retry", "throttle", "both"):
+        # delegate.submit() raising inside the layer's own worker thread
+        items.append(dict(scenario="refused", params=dict(layer=ly, calls=3), bounds=dict(P=0 if q else 1)))
     return items
